@@ -98,6 +98,20 @@ VARIANTS = {
 }
 
 
+COMBOS = [
+    {"THETA": "$THETA (0,0.005) ; TVCL\n (0,1.0) ; TVV\n", "THETA2": ""},
+    {"THETA": "$THETA (0,0.005) (0,1.0)\n", "THETA2": ""},
+    {"OMEGA": "$OMEGA 0.03 0.03\n", "OMEGA2": ""},
+    {"OMEGA": "$OMEGA (0.03)x2\n", "OMEGA2": ""},
+    {"OMEGA": "$OMEGA BLOCK(2) 0.03 0.001 0.03\n", "OMEGA2": ""},
+    {"OMEGA": "$OMEGA DIAGONAL(2) 0.03 0.03 ; both\n", "OMEGA2": ""},
+    {"OMEGA": "$OMEGA 0.03 ; IIV_CL\n 0.03 ; IIV_V\n", "OMEGA2": ""},
+    {"OMEGA": "$OMEGA BLOCK(1) 0.03\n", "OMEGA2": "$OMEGA BLOCK(1) SAME\n"},
+    {"SIGMA": "$SIGMA 0.01 FIX\n"},
+    {"THETA": "$THETA (0.005 FIX) ; TVCL\n"},
+]
+
+
 def streams(tier):
     """(label, text) - the base stream with 1..r records replaced by a variant"""
     keys = [k for k, _ in BASE]
@@ -112,6 +126,12 @@ def streams(tier):
                 yield "+".join(f"{k}{sub[k]}" for k in combo), txt
     for pre in ("; header comment\n", "\n\n", "Some free text\n"):
         yield "pre", pre + "".join(t for _, t in BASE)
+    # several values in one parameter record (replacing two records of the base)
+    for i, combo in enumerate(COMBOS):
+        yield f"combo{i}", "".join(combo.get(k, t) for k, t in BASE)
+        for k2 in ("PK", "ESTIMATION", "INPUT"):
+            for j, v in enumerate(VARIANTS[k2][:2]):
+                yield f"combo{i}+{k2}{j}", "".join(combo.get(k, v if k == k2 else t) for k, t in BASE)
 
 
 # an estimation step object carries its method/options, the uncertainty method and the requested predictions/residuals:
@@ -170,7 +190,10 @@ def corpus():
     repo = os.environ.get("VERIF_REPO", "/repo")
     d = os.path.join(repo, "src/pharmpy/internals/example_models/")
     t = os.path.join(repo, "tests/testdata/nonmem/")
-    return {"pheno": d + "pheno.mod", "base": None, "pheno_real": t + "pheno_real.mod", "mox2": t + "models/mox2.mod"}
+    out = {"pheno": d + "pheno.mod", "base": None, "pheno_real": t + "pheno_real.mod", "mox2": t + "models/mox2.mod"}
+    for i in range(len(COMBOS)):
+        out[f"combo{i}"] = ("text", "".join(COMBOS[i].get(k, tt) for k, tt in BASE))
+    return out
 
 
 def shards(tier):
@@ -192,6 +215,16 @@ def shards(tier):
             out.append(("edit", name, e))
     out.sort(key=lambda s: 0 if s[0] != "texts" else 1)
     return out
+
+
+def _corpus_model(path):
+    from pharmpy.modeling import read_model, read_model_from_string
+
+    if path is None:
+        return read_model_from_string("".join(t for _, t in BASE))
+    if isinstance(path, tuple):
+        return read_model_from_string(path[1])
+    return read_model(path)
 
 
 def split_records(code):
@@ -271,7 +304,7 @@ def run_shard(shard, tier):
     with warnings.catch_warnings():
         warnings.simplefilter("ignore")
         try:
-            m = read_model(path) if path else read_model_from_string("".join(t for _, t in BASE))
+            m = _corpus_model(path)
         except Exception as ex:
             note("corpus-unreadable")
             return res
@@ -305,7 +338,10 @@ def _first_diff(a, b):
 def frame_check(before, after, footprint):
     """every record of `before` outside the footprint must occur unchanged, in order, in `after`"""
     rb = split_records(before)
-    ra = split_records(after)
+    try:
+        ra = split_records(after)
+    except Exception as e:
+        return [f"the code generated after the edit cannot be parsed: {type(e).__name__}: {str(e)[:80]}"]
     fails = []
     keep = [(n, t) for n, t in rb if not any(n.startswith(f) or f.startswith(n) for f in footprint)]
     texts_after = [t for _, t in ra]
@@ -342,8 +378,7 @@ def replay(w):
                 return ["code of unmodified model: " + _first_diff(w["text"], m.code)]
             c2 = m.update_source().code
             return [] if c2 == w["text"] else ["update_source: " + _first_diff(w["text"], c2)]
-        path = corpus()[w["model"]]
-        m = read_model(path) if path else read_model_from_string("".join(t for _, t in BASE))
+        m = _corpus_model(corpus()[w["model"]])
         f, footprint = EDITS[w["edit"]]
         return frame_check(m.code, f(pm, m).code, footprint)
 
